@@ -163,7 +163,24 @@ def run_sharded(cmd, lines, tag, timeout=900):
         got = open(fout).read().split("\n")
         if got and got[-1] == "":
             got.pop()
-        # a crashed runner yields fewer lines: pad with a marker
+        # a crashed runner yields fewer lines: the first missing line is the script that killed it;
+        # mark it and re-run the rest of the shard in fresh processes
+        rounds = 0
+        while len(got) < cnt and rounds < 50:
+            rounds += 1
+            got.append("CRASH")
+            rest = shards[len(outs)][len(got):]
+            if not rest:
+                break
+            try:
+                r = subprocess.run(cmd, shell=True, input="\n".join(rest) + "\n", stdout=subprocess.PIPE,
+                                   stderr=subprocess.DEVNULL, text=True, env=ENV, cwd=VERIF, timeout=timeout)
+                more = r.stdout.split("\n")
+            except subprocess.TimeoutExpired:
+                more = []
+            if more and more[-1] == "":
+                more.pop()
+            got += more
         got += ["CRASH"] * (cnt - len(got))
         outs.append(got[:cnt])
     res = [None] * n
